@@ -121,7 +121,13 @@ func (c *reconnectClient) Connect(ctx context.Context, clientID string, opts ...
 									return
 								default:
 								}
-								baseCli.SetErrorOnce(err)
+								baseCli.mu.RLock()
+								disconnected := baseCli.connState == StateDisconnected
+								baseCli.mu.RUnlock()
+								if !disconnected {
+									// Pings fail after Disconnect closed the transport; that is not an error.
+									baseCli.SetErrorOnce(err)
+								}
 								// The client should close the connection if PINGRESP is not returned.
 								// MQTT 3.1.1 spec. 3.1.2.10
 								baseCli.Close()
